@@ -6,7 +6,8 @@ RULE = ("sets of 1-8 chromosome names from pools designed around file-name sorti
         "punctuation on both sides of '.' and '_', digits, case pairs, stems ending in '5' / 'h' / '.' / '.h5') -> real result directories produced by the library stages -> both "
         "directory-level constructors with DensityData.__init__ wrapped (from the harness) to record which gene annotation each result "
         "file received, the served contents compared with the raw file of the paired chromosome; directories made to mismatch (equal counts incl. one file vs one "
-        "annotation, unequal counts) must be refused; non-trivial = name set whose sorted .h5 order differs from its sorted _GeneData.tsv order; distinct = name set")
+        "annotation, unequal counts, the file without annotation last in the directory, a result file storing two chromosomes; every third name set with plus-strand genes only) must be refused; "
+        "unit level: the translated _pair_by_chromosome against the real function on real HDF5 files storing 0-3 identifiers and GeneData lists with duplicates / unknown chromosomes; non-trivial = name set whose sorted .h5 order differs from its sorted _GeneData.tsv order; distinct = name set")
 POOLS = [["Chr1.1", "Chr1.2", "Chr1", "Chr1.10", "Chr2.1"], ["scaffold_1.1", "scaffold_1.2", "scaffold_1", "scaffold_11", "scaffold.1"],
          ["Chr%d" % i for i in range(1, 13)], ["Chr1", "Chr10", "Chr1_A", "Chr1-alt", "Chr1.1", "Chr100"], ["A", "A-", "A_", "A.b", "A0", "AA"],
          ["x", "x-1", "x_1", "x.1", "x+1", "x 1"], ["scaf", "Scaf", "SCAF", "scaf_", "scaf2", "scaf_2"], ["1", "10", "2", "007", "1e3", "01"],
@@ -25,7 +26,7 @@ def pair_failures(case, rep, steps):
         return [{"kind": "session_failed", "exc": rep.get("exc"), "msg": rep.get("msg")}]
     for st, so in zip(steps, rep["steps"]):
         how = st["how"]
-        mismatch = bool(st.get("tamper")) and sorted(st["tamper"].get("drop_results", [])) != sorted(st["tamper"].get("drop_genedata", []))
+        mismatch = bool(st.get("tamper")) and (sorted(st["tamper"].get("drop_results", [])) != sorted(st["tamper"].get("drop_genedata", [])) or bool(st["tamper"].get("multi_id")))
         if so.get("error"):
             if how == "dir" and not mismatch:
                 fails.append({"kind": "valid_directory_refused", "constructor": how, "error": so["error"]})
@@ -46,6 +47,61 @@ def pair_failures(case, rep, steps):
     return fails
 
 
+def pair_unit(chk, n):
+    """the translated _pair_by_chromosome (Gen/GenPair.v, set iteration = first distinct element) against the real function"""
+    r = chk.rng("pair_unit")
+    cases = []
+    for i in range(n):
+        k = r.randint(1, 5)
+        gds = [r.randint(1, 6) for _ in range(k)] if r.random() < 0.25 else r.sample(range(1, 7), k)
+        h5s = []
+        for _ in range(r.randint(0, 5)):
+            x = r.random()
+            c = r.choice(gds) if r.random() < 0.8 else r.randint(1, 8)
+            if x < 0.55:
+                h5s.append([c])
+            elif x < 0.7:
+                h5s.append([c] * r.randint(2, 3))
+            elif x < 0.8:
+                h5s.append([])
+            else:
+                h5s.append([c, r.randint(1, 8)] + ([c] if r.random() < 0.3 else []))
+        cases.append({"h5s": h5s, "gds": gds})
+    req = {"op": "reader.pair_unit", "cases": [{"h5s": [["Chr%d" % x for x in st] for st in c["h5s"]], "gds": ["Chr%d" % x for x in c["gds"]]} for c in cases]}
+    rep = pool.run_requests([req], timeout=300)[0]
+    def nl(l):
+        return "[" + "; ".join("%d%%N" % x for x in l) + "]"
+    exprs = ["match gen_pair_by_chromosome (fun s => hd 0%%N s) [%s] %s with Some ps => 0%%Z :: flat_map (fun p => [Z.of_nat (fst p); Z.of_nat (snd p)]) ps | None => [(-1)%%Z] end"
+             % ("; ".join(nl(st) for st in c["h5s"]), nl(c["gds"])) for c in cases]
+    try:
+        flats = common.coq_eval("c16u", "From Coq Require Import ZArith.\nFrom TEV Require Import Model.Reader Model.Pair Gen.GenPair.", "", exprs, chunk=200)
+    except Exception as e:
+        chk.oblige("unit differential: translated _pair_by_chromosome = the real function", False, str(e)[-1500:])
+        return
+    if not rep.get("ok"):
+        chk.oblige("unit differential: translated _pair_by_chromosome = the real function", False, json.dumps(rep)[:1500])
+        return
+    first, nd, nacc, nbad = None, 0, 0, 0
+    for c, m, im in zip(cases, flats, rep["results"]):
+        mp = None if m[0] == -1 else [[m[i], m[i + 1]] for i in range(1, len(m), 2)]
+        ip = im["pairs"] if im["ok"] else None
+        nacc += mp is not None
+        chk.count("pair_unit:" + ("accepted" if mp is not None else "refused"))
+        if mp != ip:
+            nd += 1
+            first = first or {"case": c, "translated": mp, "real": ip if im["ok"] else im.get("exc")}
+        # the statement itself on the real function's answer: every pair joins a file storing exactly one chromosome with the GeneData of it
+        if ip is not None:
+            bad = [pr for pr in ip if len(set(c["h5s"][pr[0]])) != 1 or c["gds"][pr[1]] != c["h5s"][pr[0]][0]] or len(ip) != len(c["h5s"]) or len(set(c["gds"])) != len(c["gds"])
+            if bad:
+                nbad += 1
+            if bad and nbad <= 2:
+                chk.violation("_pair_by_chromosome combined a result file with the gene annotation of another chromosome (or accepted an ambiguous list)",
+                              {"unit": True, "h5_files_store": c["h5s"], "gene_data_chromosomes": c["gds"], "pairs": ip})
+    chk.cov["traces_validated_against_impl"] += len(cases)
+    chk.oblige("unit differential: translated _pair_by_chromosome = the real function on %d generated lists (%d accepted)" % (len(cases), nacc), nd == 0, json.dumps(first)[:1500] if first else "")
+
+
 def run(chk):
     pipefam.standard_obligations(chk, "C16.v")
     n = 14 if chk.tier == "quick" else 200
@@ -55,7 +111,8 @@ def run(chk):
         pl = POOLS[i % len(POOLS)]
         k = r.randint(2, min(8, len(pl)))
         names = r.sample(pl, k)
-        c = readerfam.strand_case(r, "mixed", max_chrom=k, names=names, min_chrom=k)
+        # every third name set with all genes on the plus strand: nothing after the pairing can then refuse a wrong pair by accident
+        c = readerfam.strand_case(r, "all_plus" if i % 3 == 1 else "mixed", max_chrom=k, names=names, min_chrom=k)
         sessions.append((c, names))
     steps_of = []
     for c, names in sessions:
@@ -70,6 +127,14 @@ def run(chk):
             steps.append({"how": "regex", "tamper": {"drop_results": [a], "drop_genedata": [b]}})
             steps.append({"how": "dir", "tamper": {"drop_results": [a], "drop_genedata": [a]}})                    # a valid subset
             steps.append({"how": "dir", "tamper": {"drop_results": [], "drop_genedata": [b]}})
+            # the file without an annotation is the LAST of the sorted directory (equal counts), for both constructors
+            last = sorted(chs, key=lambda x: "G_%s.h5" % x)[-1]
+            a2 = r.choice([x for x in chs if x != last])
+            steps.append({"how": "dir", "tamper": {"drop_results": [a2], "drop_genedata": [last]}})
+            steps.append({"how": "regex", "tamper": {"drop_results": [a2], "drop_genedata": [last]}})
+            # a result file that stores two chromosomes, next to ordinary files
+            steps.append({"how": "dir", "tamper": {"multi_id": [a, b]}})
+            steps.append({"how": "regex", "tamper": {"multi_id": [b, a]}})
         steps_of.append(steps)
     reps = pool.run_requests([{"op": "reader.session", "case": c, "steps": st} for (c, _), st in zip(sessions, steps_of)], timeout=300)
     # model: ids = rank of the chromosome name; pair_by_id on the ids
@@ -104,11 +169,21 @@ def run(chk):
                 chk.violation("a result file was combined with the gene annotation of another chromosome (or a valid directory was refused)",
                               {"case": {k: c[k] for k in ("genes", "tes", "windows")}, "chromosome_names": names, "steps": steps_of[si], "failures": fails[:6]})
     chk.oblige("correspondence model = implementation (pairs formed by the directory constructor)", ndiff == 0, json.dumps(first)[:2000] if first else "")
+    pair_unit(chk, 300 if chk.tier == "quick" else 4000)
     chk.sample({"chromosome_names": sessions[0][1]}); chk.sample({"chromosome_names": sessions[1][1]})
     return chk.finish(rule=RULE)
 
 
 def replay(chk, rp):
+    if rp.get("unit"):
+        c = {"h5s": [["Chr%d" % x for x in st] for st in rp["h5_files_store"]], "gds": ["Chr%d" % x for x in rp["gene_data_chromosomes"]]}
+        im = pool.run_requests([{"op": "reader.pair_unit", "cases": [c]}], timeout=300)[0]["results"][0]
+        print(json.dumps({"h5_files_store": c["h5s"], "gene_data_chromosomes": c["gds"], "real_function": im}, indent=1))
+        if not im["ok"]:
+            return 0
+        ip = im["pairs"]
+        bad = [pr for pr in ip if len(set(c["h5s"][pr[0]])) != 1 or c["gds"][pr[1]] != c["h5s"][pr[0]][0]] or len(ip) != len(c["h5s"]) or len(set(c["gds"])) != len(c["gds"])
+        return 1 if bad else 0
     steps = rp.get("steps") or [{"how": "dir"}, {"how": "regex"}]
     rep = pool.run_requests([{"op": "reader.session", "case": rp["case"], "steps": steps}], timeout=300)[0]
     fails = pair_failures(rp["case"], rep, steps)
